@@ -24,23 +24,32 @@ impl Compiler {
             //@VACUITY
             r is Ok ==> (final(self).instructions@.len() == 0 && r->Ok_0.instructions@.len() > 0 && r->Ok_0.instructions@.last() == opcode_byte(OpCode::Halt)
                 && r->Ok_0.constants@ == final(self).constants@ && final(self).last_instruction == Some(OpCode::Halt)),
-            // whatever happened, the symbol table is still usable (compile_ast resets it after a failure)
-            sym_wf(final(self).symbols),
+            // whatever happened, the symbol table is still usable (compile_ast resets it after a failure) and the names
+            // the global scope had before are still there, in their slots
+            sym_wf(final(self).symbols), sym_globals_kept(old(self).symbols, final(self).symbols),
+            // a program that compiles is back in the global context at its outermost scope
+            r is Ok ==> sym_contexts(final(self).symbols) == sym_contexts(old(self).symbols) && sym_depth(final(self).symbols) == sym_depth(old(self).symbols),
     {
-//@LOOP 1 invariant gen_inv(*self)
+//@LOOP 1 invariant sym_globals_kept(old(self).symbols, self.symbols), sym_contexts(self.symbols) == sym_contexts(old(self).symbols), sym_depth(self.symbols) == sym_depth(old(self).symbols), gen_inv(*self)
 //@LOOP 2 invariant self.instructions@.len() > 0, self.instructions@.last() == opcode_byte(OpCode::Halt)
 //@BODY file=compiler.rs fn=compile_program impl=Compiler sig="fn compile_program(&mut self, ast: &BlockStmt) -> Result<Bytecode, Error>" rules="R1;R4;R4s;R11"
     }
 
     /// O17.1b  compile_ast: a program that FAILS to compile leaves no emitted code, no remembered last instruction,
-    /// no open loop and no open function / block context behind (only declarations it completed in the global
-    /// scope); a program that compiles leaves an empty code buffer. Either way the next program starts clean.
+    /// no open loop, no open function / block context and NONE OF ITS DECLARATIONS behind: the global scope holds
+    /// exactly the names it held before, in the same slots. A program that compiles leaves an empty code buffer and
+    /// the session at the outermost global scope again. Either way the next program starts clean.
     pub fn compile_ast(&mut self, ast: &Vec<Stmt>) -> (r: Result<Bytecode, Error>)
-        requires gen_inv(*old(self))
+        requires gen_inv(*old(self)),
+                 // between two programs a session is in the global context, at its outermost scope
+                 sym_contexts(old(self).symbols) == 1, sym_depth(old(self).symbols) == 1,
         ensures
             //@VACUITY
             final(self).instructions@.len() == 0,
             r is Err ==> (final(self).last_instruction is None && final(self).loop_contexts@.len() == 0),
+            r is Err ==> sym_global_names(final(self).symbols) =~= sym_global_names(old(self).symbols),
+            sym_globals_kept(old(self).symbols, final(self).symbols),
+            sym_contexts(final(self).symbols) == 1 && sym_depth(final(self).symbols) == 1,
             r is Ok ==> (r->Ok_0.instructions@.len() > 0 && r->Ok_0.instructions@.last() == opcode_byte(OpCode::Halt)),
             gen_inv(*final(self)),   // so the NEXT compile_ast call may assume it again
     {
